@@ -299,33 +299,10 @@ def swizzleGroup (doms : Array RL) (fields : List Nat) (d : DrawSt) : List Expr 
     | none => nodes := []
   return (order, d)
 
-/-- `RandInfoBuilder.build`: ordered groups of a rand set from the solve_order pairs
-    `(before, after)` (toposort levels restricted to the set's fields in field order; after repair
-    5c7e970 the fields no directive mentions form a last group) -/
-def orderGroups (rsFields : List Nat) (pairs : List (Nat × Nat)) : Option (List (List Nat)) :=
-  let depsOf : Nat → List Nat := fun a => (pairs.filter (fun p => p.2 == a && p.1 != a)).map (·.1)
-  let keys := rsFields.filter fun f => pairs.any (fun p => p.2 == f)
-  if keys.isEmpty then none
-  else
-    let nodes := (keys ++ keys.flatMap depsOf).eraseDups
-    let rec levels (fuel : Nat) (remaining : List Nat) (done : List Nat) (acc : List (List Nat)) : List (List Nat) :=
-      match fuel with
-      | 0 => acc
-      | fuel + 1 =>
-        if remaining.isEmpty then acc
-        else
-          let lvl := remaining.filter fun n => (if keys.contains n then depsOf n else []).all fun d => done.contains d || !nodes.contains d
-          if lvl.isEmpty then acc
-          else levels fuel (remaining.filter fun n => !lvl.contains n) (done ++ lvl) (acc ++ [lvl])
-    let lv := levels (nodes.length + 1) nodes [] []
-    let groups := (lv.map fun fs => rsFields.filter fun f => fs.contains f).filter fun g => !g.isEmpty
-    let ordered := groups.flatten
-    let rest := rsFields.filter fun f => !ordered.contains f
-    some (if rest.isEmpty then groups else groups ++ [rest])
-
 def runCall (fields : Array Field) (tops : List Stmt) (recs : List Json) (limit : Nat)
     (implFinal : Option (Array Int)) (allF : List Nat) (boundTops : List Stmt := [])
-    (draws : Option (List (Int × Int × Int)) := none) (orderPairs : List (Nat × Nat) := []) : Except String Json := do
+    (draws : Option (List (Int × Int × Int)) := none) (orderPairs : List (Nat × Nat) := [])
+    (implBounds : Option (Array Bounds.RL) := none) : Except String Json := do
   let Γ := envΓ fields
   let vals0 : Array Int := fields.map (·.val)
   let vn : Nat → String := fun i => match fields[i]? with | some f => f.name | none => s!"?{i}"
@@ -358,7 +335,7 @@ def runCall (fields : Array Field) (tops : List Stmt) (recs : List Json) (limit 
   for rs in rsl do
     let ρ := envρ vals0
     -- swizzle candidates the model expects, from the recorded draws
-    let groupsF : List (List Nat) := match orderGroups rs.fields orderPairs with
+    let groupsF : List (List Nat) := match RandSets.orderGroups rs.fields orderPairs with
       | some gs => gs
       | none => [rs.fields.filter fun i => (Γ i).rand]
     let mut candsJ : List Json := []
@@ -427,6 +404,16 @@ def runCall (fields : Array Field) (tops : List Stmt) (recs : List Json) (limit 
       !(decide (Pyvsc.Spec.InType (Γ i).w (Γ i).s (ρf i))) || !(enumOk fields valsO [i])
     -- exhaustive reference: satisfiability and the exact greedy soft set
     let envs := enumEnvs fields vals0 rfields limit
+    -- C14: every value a random field takes in some solution must lie in the range inferred for it
+    let judged : Array Bounds.RL := match implBounds with | some b => b | none => bst.doms
+    let starved : List Json := match envs with
+      | none => []
+      | some es =>
+        let sols := es.filter fun env => enumOk fields env rfields && hardS.all fun s => sholds Γ (envρ env) s
+        rfields.flatMap fun i =>
+          let vs := (sols.map fun env => env[i]?.getD 0).eraseDups
+          let dm := judged.getD i []
+          ((vs.filter fun v => !(dm.any fun r => r.1 ≤ v && v ≤ r.2)).take 4).map fun v => Json.arr #[Json.str (vn i), jInt v]
     let (specSat, softRef, softHonoured) := match envs with
       | none => (Json.null, Json.null, Json.null)
       | some es =>
@@ -464,9 +451,9 @@ def runCall (fields : Array Field) (tops : List Stmt) (recs : List Json) (limit 
       ("final", jList (fun (p : Nat × Int) => Json.arr #[Json.str (vn p.1), jInt p.2]) final),
       ("refFail", jList jNat refFail), ("typeFail", jList (fun i => Json.str (vn i)) typeFail),
       ("specSat", specSat), ("softRef", softRef), ("softHonoured", softHonoured),
-      ("bits", jNat bits),
+      ("bits", jNat bits), ("starved", Json.arr starved.toArray),
       ("cands", Json.arr candsJ.toArray), ("drawsOk", Json.bool dst.ok), ("drawsUsed", jNat drawsUsed),
-      ("order", match orderGroups rs.fields orderPairs with
+      ("order", match RandSets.orderGroups rs.fields orderPairs with
         | some gs => jList (fun g => jList (fun i => Json.str (vn i)) g) gs
         | none => Json.null)]
     k := k + 1
@@ -510,7 +497,16 @@ def handleCall (j : Json) : Except String Json := do
           let a ← t.getArr?
           pure (((← (a[0]?.getD Json.null).getInt?)).toNat, ((← (a[1]?.getD Json.null).getInt?)).toNat) : Except String _).toOption).getD []
     | none => []
-  runCall fields tops recs limit implFinal (List.range fields.size) [] draws orderPairs
+  let implBounds : Option (Array Bounds.RL) := match getOpt j "implBounds" with
+    | some b => some (fields.map fun f => match (b.getObjVal? f.name).toOption with
+        | some (Json.arr a) => a.toList.filterMap fun r => match r with
+            | Json.arr p => match (p[0]?.getD Json.null).getInt?, (p[1]?.getD Json.null).getInt? with
+                | .ok x, .ok y => some (x, y)
+                | _, _ => none
+            | _ => none
+        | _ => [])
+    | none => none
+  runCall fields tops recs limit implFinal (List.range fields.size) [] draws orderPairs implBounds
 
 /-- `z.expr`: value of one expression under an environment, reference and lowered side by side -/
 def handleExpr (j : Json) : Except String Json := do
